@@ -94,3 +94,29 @@ func init() {
 			"llo/onchain_config_codec.go EVMOnchainConfigCodec.Decode (what is stored as the predecessor digest)", "C06", "C04", "C16")
 	})
 }
+
+// What reports() puts into a report: every read of outcome.StreamAggregates in the function, as written (the
+// model looks the aggregate up by the (stream, aggregator) pair of the definition, position by position).
+func init() {
+	register(func() {
+		llo := load("llo", false)
+		fd := llo.funcDecl("Plugin", "reports")
+		var out []string
+		if fd == nil {
+			out = []string{"<function not found>"}
+		} else {
+			ast.Inspect(fd.Body, func(n ast.Node) bool {
+				if ix, ok := n.(*ast.IndexExpr); ok {
+					if s := types.ExprString(ix); len(s) > 0 && containsStr(s, "StreamAggregates") {
+						if _, inner := ix.X.(*ast.IndexExpr); inner {
+							out = append(out, s)
+							return false
+						}
+					}
+				}
+				return true
+			})
+		}
+		addStrs("llo_reports_aggregate_lookups", out, "llo/plugin_reports.go Plugin.reports (reads of outcome.StreamAggregates)", "C15", "C01")
+	})
+}
